@@ -800,21 +800,28 @@ impl TypeId {
         tycker.err_p_to_k(res)
     }
     pub fn unroll(self, tycker: &mut Tycker<'_>) -> Result<TypeId> {
+        self.unroll_through(tycker, &mut Vec::new())
+    }
+    /// `seen` lists the sealed definitions already opened on the way here. A non-productive
+    /// definition (`def T = T`, or a cycle of such definitions) never reaches a structural type:
+    /// it stays sealed instead of being opened forever.
+    fn unroll_through(self, tycker: &mut Tycker<'_>, seen: &mut Vec<AbstId>) -> Result<TypeId> {
         let kd = tycker.statics.type_kind(self);
         let env = tycker.statics.env_at(self);
         let res = match tycker.type_filled(&self)?.to_owned() {
             | Type::Abst(abst) => {
-                match tycker.statics.seals.get(&abst) {
-                    | Some(ty) => {
-                        ty.unroll(tycker)?
+                match tycker.statics.seals.get(&abst).copied() {
+                    | Some(ty) if !seen.contains(&abst) => {
+                        seen.push(abst);
+                        ty.unroll_through(tycker, seen)?
                     }
-                    | None => self,
+                    | Some(_) | None => self,
                 }
             }
             | Type::App(ty) => {
                 // congruence rule
                 let App(ty1, ty2) = ty;
-                let ty1_ = ty1.unroll(tycker)?;
+                let ty1_ = ty1.unroll_through(tycker, seen)?;
                 if ty1 == ty1_ {
                     self
                 } else {
@@ -846,9 +853,11 @@ impl TypeId {
             | Type::Data(_)
             | Type::CoData(_) => self,
             | Type::Proj(Proj(head, name)) => {
-                let head = head.unroll(tycker)?;
+                let head = head.unroll_through(tycker, seen)?;
                 match tycker.type_filled(&head)?.to_owned() {
-                    | Type::Named(Named(found, inner)) if found == name => inner.unroll(tycker)?,
+                    | Type::Named(Named(found, inner)) if found == name => {
+                        inner.unroll_through(tycker, seen)?
+                    }
                     | _ => {
                         let payload_kind = tycker.statics.type_kind(self);
                         Alloc::alloc(tycker, Proj(head, name), payload_kind, &env)
